@@ -69,7 +69,7 @@ pub fn judge(case: &Case) -> Verdict {
         Err(p) => Verdict::Violated { class: "panic:try_from".into(), expected: show(&exp), observed: format!("panic: {}", p) },
         Ok((got, back)) => {
             if got != exp {
-                return Verdict::Violated { class: format!("try_from:expected-{}-got-{}", kindname(&exp), kindname(&got)), expected: format!("{} for bit-set {:#x} ({} bits)", show(&exp), b, b.count_ones()), observed: show(&got) };
+                return Verdict::Violated { class: if matches!((&exp, &got), (Outcome::Ok(_), Outcome::Ok(_))) { "try_from:wrong-cards-or-not-deck-order".to_string() } else { format!("try_from:expected-{}-got-{}", kindname(&exp), kindname(&got)) }, expected: format!("{} for bit-set {:#x} ({} bits)", show(&exp), b, b.count_ones()), observed: show(&got) };
             }
             if let Some(bb) = back {
                 if bb != b {
